@@ -129,3 +129,14 @@ impl Digest {
 pub fn hex8(h: &[u8]) -> String {
     hex::encode(&h[..4.min(h.len())])
 }
+
+
+/// per run: evaluate the node's log statements up to debug level into a sink (on), or only the error-level ones, which every production node evaluates (off). No effect
+/// when VERIF_LOG asked for real log output. The level is process-global; a worker process executes its runs one
+/// after the other.
+pub fn sink_logging(on: bool) {
+    if std::env::var("VERIF_LOG").is_ok() {
+        return;
+    }
+    log::set_max_level(if on { log::LevelFilter::Debug } else { log::LevelFilter::Error });
+}
